@@ -164,6 +164,62 @@ Ltac fin :=
   solve [ fin0 | intros; left; apply snoc_nonnil | intros; fwd; cbn in *; fin0
         | intros; enum; fwd2; cbn in *; rewrite ?cnt_nil in *; fin1 ].
 
+(** The preservation tactic: unfold the step, case-split the step's own matches ([dmatch]), normalise
+    the hypotheses ONCE, split on the few variables that guard invariant clauses with forward
+    chaining after each split (inconsistent cases disappear before the 24 clauses are generated),
+    then discharge the clauses one by one ([fin] with its own case split is only a fall-back). *)
+Ltac unf H := unfold step, s_send, ws_sc, ws_cs, pq_add, c_polling_close, s_on_transport_close,
+   c_on_transport_close, ws_kill, tm_done, c_committed, s_upgraded in H.
+
+Ltac hnorm :=
+  rewrite ?cnt_msgs, ?cnt_app, ?cntN_app, ?cnt_msgs, ?cnt_filter_noop, ?sent_ind_succ, ?cnt_cons_msg, ?cnt_cons_noop,
+          ?cnt_cons_ping, ?cnt_cons_pong, ?cnt_cons_upg, ?cntN_one, ?cnt_nil, ?nUpg_app,
+          ?app_length, ?Bool.orb_true_r, ?Bool.orb_false_r in *.
+Ltac gnorm :=
+  rewrite ?cnt_msgs, ?cnt_app, ?cntN_app, ?cnt_msgs, ?cnt_filter_noop, ?sent_ind_succ, ?cnt_cons_msg, ?cnt_cons_noop,
+          ?cnt_cons_ping, ?cnt_cons_pong, ?cnt_cons_upg, ?cntN_one, ?cnt_nil, ?nUpg_app,
+          ?app_length, ?Bool.orb_true_r, ?Bool.orb_false_r; cbn.
+
+(** forward chaining on the hypotheses; never splits the goal except on a disjunctive fact *)
+Ltac fw :=
+  repeat match goal with
+  | H : ?a = ?a -> _ |- _ => specialize (H eq_refl)
+  | H : (_ :: _ <> []) -> _ |- _ => specialize (H ltac:(discriminate))
+  | H : (?a = ?a \/ _) -> _ |- _ => specialize (H (or_introl eq_refl))
+  | H : (_ \/ ?a = ?a) -> _ |- _ => specialize (H (or_intror eq_refl))
+  | H : ?a = ?a <-> _ |- _ => destruct H as [H _]; specialize (H eq_refl)
+  | H : _ <-> ?a = ?a |- _ => destruct H as [_ H]; specialize (H eq_refl)
+  | H : ?b = true <-> ?c = ?d |- _ =>
+      is_var b; assert (c <> d) by (clear; discriminate);
+      assert (b = false) by (destruct b; [exfalso; tauto | reflexivity]); clear H
+  | H : ?x = _ |- _ => is_var x; subst x
+  | H : _ /\ _ |- _ => destruct H
+  | H : _ \/ _ |- _ => destruct H
+  | H : ?a = ?b -> _ |- _ => assert (a <> b) by (clear; discriminate); clear H
+  end.
+
+(** modus ponens with facts just introduced *)
+Ltac mp :=
+  repeat match goal with
+  | H : ?P -> _, H' : ?P |- _ => specialize (H H')
+  end.
+
+Ltac absurd_now :=
+  try solve [ exfalso; match goal with
+                       | H : ?a = ?b |- _ => discriminate H
+                       | H : ?a <> ?a |- _ => apply H; reflexivity
+                       end ].
+
+(** one case split on a variable that guards a clause (or sits in a match), then forward chaining *)
+Ltac split1 :=
+  match goal with
+  | |- context [match ?x with _ => _ end] => is_var x; destruct x
+  | H : context [match ?x with _ => _ end] |- _ => is_var x; destruct x
+  | H : ?b = true -> _ |- _ => is_var b; destruct b
+  | H : ?b = false -> _ |- _ => is_var b; destruct b
+  | H : ?b = true <-> _ |- _ => is_var b; destruct b
+  end; cbn in *; fw; cbn in *; absurd_now.
+
 Ltac go I H :=
   destruct I as [i_sc i_cup i_exit i_rl i_wsrl i_tok i_park i_woke i_bad i_up1 i_up2 i_lexit i_open i_cand i_upg i_noupg i_pong i_pre i_closed b_sc b_cs b_pq b_s2c b_c2s];
   unfold c_committed, s_upgraded in *;
@@ -172,11 +228,10 @@ Ltac go I H :=
   try (match goal with E : nth_error ?l ?i = Some ?x |- _ =>
          pose proof (length_remove_nth _ _ _ E);
          match goal with |- inv ?n _ => pose proof (cntN_remove_nth n _ _ _ E) end end);
-  constructor; unfold c_committed, s_upgraded; cbn; try assumption; norm; try fin.
-
-Ltac unf H := unfold step, s_send, ws_sc, ws_cs, pq_add, c_polling_close, s_on_transport_close,
-   c_on_transport_close, ws_kill, tm_done, c_committed, s_upgraded in H.
-
+  unfold c_committed, s_upgraded; cbn; hnorm; cbn in *; fw; cbn in *; absurd_now;
+  repeat split1;
+  constructor; cbn; gnorm;
+  try solve [ intros; fin1 | intros; mp; fw; cbn in *; fin1 ]; try fin.
 Ltac label_case :=
   match goal with
   | I : inv _ ?st, H : step _ ?st = Some _ |- _ => destruct st; unf H; go I H
